@@ -79,12 +79,31 @@ def run(rep, model, tier, seed, broken=()):
         cases.append(c)
     nbad = 0
     outside = []
+    multi_p = 0.15 if tier == "quick" else 0.05
     for case in cases:
         tr, ir, mv, req = treeh.run_case(model, case)
         ct.dist(rep, case, "names")
         rep.count_case(json.dumps(treeh.case_json(case), sort_keys=True, default=str),
                        "tree" not in case or sum(1 for _ in treeh.walk_tree(case["tree"])) >= 3)
         prob = compare(tr, ir, mv, tr.case) or (frame_oracle(ir, tr.case) if ct.tree_ok(case) else None)
+        if prob is None and ct.tree_ok(case) and ir["status"] == 0 and tr.out_abs is not None \
+                and case.get("out") != "parent_of_input" and rng.random() < multi_p:
+            # the same input as one of several on one command line, after a directory input without explicit
+            # prefix: titles and module names must be those of the run on its own (the default prefix of
+            # one input is not the prefix of the next)
+            from props.c17 import embedded_run
+            ie = embedded_run(dict(case), base_files=ir["outfiles"])
+            rep.dist("names:embedded_after_directory_input")
+            if ie["status"] == 0:
+                for k in sorted(ir["outfiles"]):
+                    if k.endswith("index.rst") or k not in ie["outfiles"]:
+                        continue
+                    a = head_of(ie["outfiles"][k].decode("utf-8", "replace"))
+                    b = head_of(ir["outfiles"][k].decode("utf-8", "replace"))
+                    if a != b:
+                        prob = dict(what="title / module directive differ when the input follows a directory input on one "
+                                         "command line", file=k, embedded=a, alone=b)
+                        break
         if prob:
             if ct.tree_ok(case):
                 nbad += 1
